@@ -187,6 +187,28 @@ func c18Case(w *core.W, in []byte, entry string) {
 	} else {
 		w.Class("unsatisfiable-within-3")
 	}
+	// the same holds for every generator seed a caller passes, and a seed fixes the example
+	if satisfiable && exampleOK {
+		for _, seed := range []int64{1, 42} {
+			var a, b []byte
+			var ea, eb error
+			if rec, site := guard(func() {
+				a, ea = jregex.New("r", in, jregex.WithGeneratorSeed(seed)).Example()
+				b, eb = jregex.New("r", in, jregex.WithGeneratorSeed(seed)).Example()
+			}); rec != nil {
+				w.Violate(bv("no-panic", entry, in, fmt.Sprintf("Example() with seed %d panicked: %v", seed, rec), map[string]string{"site": site}))
+				break
+			}
+			if ea != nil || !re.Match(a) {
+				w.Violate(bv("example-matches", entry, in, fmt.Sprintf("seed %d: Example()=%q err=%v is not matched by %q", seed, a, ea, pattern), map[string]string{"how": "seeded", "anchors": fmt.Sprint(strings.ContainsAny(pattern, "^$"))}))
+				break
+			}
+			if eb != nil || string(a) != string(b) {
+				w.Violate(bv("example-fixed-by-seed", entry, in, fmt.Sprintf("seed %d: two schemas over the same text gave %q and %q (err=%v)", seed, a, b, eb), nil))
+				break
+			}
+		}
+	}
 	if e3 != nil || ast.Value != "/"+pattern+"/" || ast.TokenType != schema.TokenTypeString {
 		w.Violate(bv("ast", entry, in, fmt.Sprintf("AST value %q type %q err=%v, want /%s/", ast.Value, ast.TokenType, e3, pattern), nil))
 	}
